@@ -30,7 +30,18 @@ KORIG == <<111, 114, 105, 103>>      \* "orig"
 
 \* a node that comes out of a key-sorting decoder holds its maps in that codec's order
 Made0(v, p) == IF p = "decode-cbor" THEN Sorted(v, "lenfirst") ELSE IF p = "decode-json" THEN Sorted(v, "bytewise") ELSE v
-Init == /\ nodes \in {<<[v |-> Made0(v, p), by |-> p, src |-> 0]>> : v \in Values0, p \in Producers}
+\* producer "gen": the builder of a type of freshly generated code (catalogue type T0 = SchemaCat!R10: a struct with
+\* renames holding a struct, a keyed union and a list of nullable strings); its values are type-level trees of that type
+GenV == MapV(<<<<102>>, <<103>>, <<104>>>>,
+             << MapV(<<<<97>>, <<98>>, <<99>>>>, <<I(1), I(2), S(<<120>>)>>),
+                MapV(<<<<83, 116, 114, 105, 110, 103>>>>, <<S(<<115>>)>>),
+                ListV(<<S(<<97>>), NullV>>) >>)
+GenV2 == MapV(<<<<102>>, <<103>>, <<104>>>>,
+              << MapV(<<<<97>>, <<98>>, <<99>>>>, <<I(7), I(8), S(<<121, 121>>)>>),
+                 MapV(<<<<73, 110, 116>>>>, <<I(5)>>),
+                 ListV(<<NullV>>) >>)
+Init == /\ nodes \in {<<[v |-> Made0(v, p), by |-> p, src |-> 0]>> : v \in Values0, p \in Producers \ {"gen"}}
+                      \cup (IF "gen" \in Producers THEN {<<[v |-> GenV, by |-> "gen", src |-> 0]>>} ELSE {})
         /\ n = 0 /\ hist = <<>>
 
 \* values of derived nodes
@@ -60,16 +71,20 @@ Derive(op, v) ==
 
 \* schema-typed nodes (and what keeps their prototype): a replacement by an arbitrary value is not acceptable there
 RECURSIVE Typed(_)
-Typed(i) == nodes[i].by = "wrap-assign-mutate" \/ (nodes[i].by = "assign-top-then-reset" /\ nodes[i].src > 0 /\ Typed(nodes[i].src))
+Typed(i) == nodes[i].by \in {"wrap-assign-mutate", "gen"}
+            \/ (nodes[i].by \in {"assign-top-then-reset", "reset-reuse"} /\ nodes[i].src > 0 /\ Typed(nodes[i].src))
+\* the generated builder, reset and reused, can only build another value of its type
+RECURSIVE GenBuilt(_)
+GenBuilt(i) == nodes[i].by = "gen" \/ (nodes[i].by = "reset-reuse" /\ nodes[i].src > 0 /\ GenBuilt(nodes[i].src))
 
 Op(op, i) ==
   /\ n < MaxOps /\ n' = n + 1
   /\ i \in DOMAIN nodes
   /\ op = "reset-reuse" => (nodes[i].src = 0 \/ nodes[i].by = "reset-reuse")      \* only builders the history still holds
   /\ op = "transform" => ~Typed(i)
-  /\ LET d == Derive(op, nodes[i].v) IN
-     nodes' = IF d # Nil /\ Len(nodes) < MaxNodes THEN Append(nodes, [v |-> d, by |-> op, src |-> i]) ELSE nodes
-  /\ hist' = Append(hist, [op |-> op, i |-> i, made |-> (Derive(op, nodes[i].v) # Nil /\ Len(nodes) < MaxNodes)])
+  /\ LET d == IF op = "reset-reuse" /\ GenBuilt(i) THEN GenV2 ELSE Derive(op, nodes[i].v) IN
+     /\ nodes' = IF d # Nil /\ Len(nodes) < MaxNodes THEN Append(nodes, [v |-> d, by |-> op, src |-> i]) ELSE nodes
+     /\ hist' = Append(hist, [op |-> op, i |-> i, made |-> (d # Nil /\ Len(nodes) < MaxNodes)])
 
 Next == \E op \in OpNames, i \in 1..MaxNodes : Op(op, i)
 Spec == Init /\ [][Next]_vars
